@@ -310,7 +310,7 @@ class Driver:
             else:
                 out.append({'m': ['notify', k, self.act_tok(r['action']), sink], 'ok': r['ok'], 'to': r['to'],
                             'refp': r['refp'], 'is_e': bool(is_e)})
-        return sorted(out, key=lambda d: json.dumps(d['m']))
+        return sorted(out, key=lambda d: (d['m'][0], -1 if d['m'][1] is None else d['m'][1], json.dumps(d['m'])))
 
     def entry(self, resp, recs, **extra):
         d = {'resp': resp, 'handed': self.handed(recs), 'table': self.table_view(), 'pool': self.pool_view()}
@@ -375,10 +375,19 @@ class Driver:
 
             class Manip:
                 def manipulate_string(self_, xml):  # noqa: N805
-                    if expires is None:
+                    if expires is None and (q['schema_ok'] or q.get('bad', 'delivery') == 'delivery'):
                         xml = xml.replace(b'<wse:Expires/>', b'')
                     if not q['schema_ok']:
-                        xml = xml.replace(b'wse:Delivery', b'wse:Deliverx')
+                        bad = q.get('bad', 'delivery')
+                        if bad == 'delivery':
+                            xml = xml.replace(b'wse:Delivery', b'wse:Deliverx')
+                        else:       # an Expires value outside the accepted duration language
+                            txt = {'days': b'P1DT2S', 'negative': b'-PT5S', 'datetime': b'2031-01-01T00:00:00Z',
+                                   'garbage': b'soon'}[bad]
+                            xml = re.sub(rb'<wse:Expires>[^<]*</wse:Expires>|<wse:Expires/>',
+                                         b'<wse:Expires>' + txt + b'</wse:Expires>', xml)
+                            if b'<wse:Expires>' not in xml:
+                                xml = xml.replace(b'</wse:Delivery>', b'</wse:Delivery><wse:Expires>' + txt + b'</wse:Expires>')
                     return xml
             resp, res, ex = self.exchange(lambda: self.post(self.svc_path, msg, manip=Manip(), validate=False))
             if resp[0] == 'sub':
